@@ -42,7 +42,7 @@ class CuckooWorld(Scenario):
             "auto_expand": rng.chance(1, 2),
             # rate 1 ("expand" into a table of the same size) is legal and makes failed expansions frequent
             "expansion_rate": rng.weighted([(4, 2), (1, 3), (1, 1)]),
-            "hash": rng.weighted([(1, "default"), (2, "sim")]),
+            "hash": rng.weighted([(2, "default"), (4, "sim"), (1, "wide")]),
             "hseed": rng.below(1 << 16),
             "universe": rng.choice((6, 10, 16, 30, 60)),
             "strat": rng.choice(seams.Sched.STRATS[:4]),
@@ -102,12 +102,15 @@ class CuckooWorld(Scenario):
     def setup(self, cfg):
         from probables import CuckooFilter, CountingCuckooFilter
 
+        seams.SURROGATE_OK = cfg["hash"] == "default"
         self.cfg = cfg
         self.counting = cfg["counting"]
         self.n_gen = 0
         self.fans_left = self.fanout_cap
         self.sr = seams.install_simrandom()
-        self.hf = seams.make_single_hash(cfg["hash"], cfg["hseed"], 64)
+        # "wide": a strategy returning 128-bit integers (only the low bits make the fingerprint; bucket = hash mod capacity)
+        self.hf = seams.make_single_hash("sim" if cfg["hash"] == "wide" else cfg["hash"], cfg["hseed"],
+                                         128 if cfg["hash"] == "wide" else 64)
         self.cls = CountingCuckooFilter if self.counting else CuckooFilter
         if cfg.get("error_rate"):
             self.f = self.cls.init_error_rate(
@@ -383,9 +386,27 @@ def cuckoo_export(world, f, chan):
         sink = SimFile()
         f.export(sink)
         return sink.getvalue(), None
-    if chan == "path":
+    if chan in ("path", "fspath"):
         p = os.path.join(world.ctx.scratch, "cuckoo.cko")
-        f.export(p)
+        if os.path.exists(p):
+            os.unlink(p)
+        f.export(seams.FsPath(p) if chan == "fspath" else p)  # fspath: an os.PathLike that is neither str nor Path
+        with open(p, "rb") as fh:
+            return fh.read(), p
+    if chan == "mmap":
+        import mmap as _mmap
+
+        size = len(bytes(f))
+        p = os.path.join(world.ctx.scratch, "cuckoo.mm")
+        with open(p, "wb") as fh:
+            fh.write(b"\x00" * size)
+        with open(p, "r+b") as fh:
+            mm = _mmap.mmap(fh.fileno(), size)
+            try:
+                f.export(mm)
+                mm.flush()
+            finally:
+                mm.close()
         with open(p, "rb") as fh:
             return fh.read(), p
     raise HarnessError(chan)
